@@ -232,7 +232,7 @@ impl<F: Float, L: Label + std::fmt::Debug> TreeNode<F, L> {
 
             // We keep a running total of the aggregate weight in the right split
             // to avoid having to sum over the hash map
-            let total_weight = parent_class_freq.values().sum::<f32>();
+            let total_weight = sorted_frequencies(&parent_class_freq).iter().sum::<f32>();
             let mut weight_on_right_side = total_weight;
             let mut weight_on_left_side = 0.0;
 
@@ -677,13 +677,22 @@ fn find_modal_class<L: Label>(class_freq: &HashMap<L, f32>) -> L {
     (*val).clone()
 }
 
+/// The class frequencies in ascending order of their class, so that floating-point sums over them
+/// do not depend on the iteration order of the hash map.
+fn sorted_frequencies<L: Label>(class_freq: &HashMap<L, f32>) -> Vec<f32> {
+    let mut entries = class_freq.iter().collect::<Vec<_>>();
+    entries.sort_by(|a, b| a.0.cmp(b.0));
+    entries.into_iter().map(|(_, freq)| *freq).collect()
+}
+
 /// Given the class frequencies calculates the gini impurity of the subset.
 fn gini_impurity<L: Label>(class_freq: &HashMap<L, f32>) -> f32 {
-    let n_samples = class_freq.values().sum::<f32>();
+    let class_freq = sorted_frequencies(class_freq);
+    let n_samples = class_freq.iter().sum::<f32>();
     assert!(n_samples > 0.0);
 
     let purity = class_freq
-        .values()
+        .iter()
         .map(|x| x / n_samples)
         .map(|x| x * x)
         .sum::<f32>();
@@ -693,11 +702,12 @@ fn gini_impurity<L: Label>(class_freq: &HashMap<L, f32>) -> f32 {
 
 /// Given the class frequencies calculates the entropy of the subset.
 fn entropy<L: Label>(class_freq: &HashMap<L, f32>) -> f32 {
-    let n_samples = class_freq.values().sum::<f32>();
+    let class_freq = sorted_frequencies(class_freq);
+    let n_samples = class_freq.iter().sum::<f32>();
     assert!(n_samples > 0.0);
 
     class_freq
-        .values()
+        .iter()
         .map(|x| x / n_samples)
         .map(|x| if x > 0.0 { -x * x.log2() } else { 0.0 })
         .sum()
